@@ -26,9 +26,8 @@ func (c *ChoquetIntegralBiasListener) OnCriterionAdded(
 	newWeights := make(model.Weights, len(*newWeightsKeys))
 	for _, k := range *newWeightsKeys {
 		cKey := criterionKey(&k)
-		weight, ok := (*oldWeights)[cKey]
-		if ok {
-			newWeights[cKey] = weight
+		if _, ok := (*oldWeights)[cKey]; ok {
+			// already part of the parameters: Merge joins them with this addition and rejects a repeated key
 			continue
 		}
 		originalKeyCriteriaWithoutNewOne := utils.RemoveSingleStringOccurrence(k, criterion.Id)
@@ -38,7 +37,7 @@ func (c *ChoquetIntegralBiasListener) OnCriterionAdded(
 		}
 		newWeights[cKey] = getWeightForCriteriaUnion(&originalKeyCriteriaWithoutNewOne, oldWeights)
 	}
-	return choquetParams{weights: &newWeights, criteria: &newCriteria}
+	return choquetParams{weights: &newWeights, criteria: &model.Criteria{*criterion}}
 }
 
 func (c *ChoquetIntegralBiasListener) OnCriteriaRemoved(
